@@ -19,7 +19,7 @@ func fixedQ(text string, vars map[string]interface{}) query {
 
 func singleGateAPICases() []apiCase {
 	a := []string{"a"}
-	return []apiCase{
+	out := []apiCase{
 		{name: "interface-field", withWS: true, spec: &Spec{Query: "Query", Types: withBuiltins(
 			TypeSpec{Kind: "interface", Name: "Thing", Fields: []FieldSpec{{Name: "id", Type: "ID"}, {Name: "createdAt", Type: "String", Req: a}}},
 			TypeSpec{Kind: "object", Name: "Widget", Ifaces: []string{"Thing"}, Fields: []FieldSpec{{Name: "id", Type: "ID"}, {Name: "createdAt", Type: "String"}}},
@@ -40,7 +40,8 @@ func singleGateAPICases() []apiCase {
 			TypeSpec{Kind: "interface", Name: "Hidden", Req: a, Fields: []FieldSpec{{Name: "id", Type: "ID"}}},
 			TypeSpec{Kind: "object", Name: "Widget", Ifaces: []string{"Hidden"}, Fields: []FieldSpec{{Name: "id", Type: "ID"}}},
 			TypeSpec{Kind: "object", Name: "Query", Fields: []FieldSpec{{Name: "w", Type: "Widget"}}})},
-			queries: []query{fixedQ("{ w { ... on Hidden { id } } }", nil), {Kind: "probe", Label: "nav:Widget", Text: navProbe("Widget")}}},
+			queries: []query{fixedQ("{ w { ... on Hidden { id } } }", nil), {Kind: "probe", Label: "nav:Widget", Text: navProbe("Widget")},
+				{Kind: "probe", Label: "type:Hidden", Text: typeProbe("Hidden")}}},
 		{name: "union-type", spec: &Spec{Query: "Query", Types: withBuiltins(
 			TypeSpec{Kind: "object", Name: "Widget", Fields: []FieldSpec{{Name: "id", Type: "ID"}}},
 			TypeSpec{Kind: "union", Name: "Any", Req: a, Members: []string{"Widget"}},
@@ -66,12 +67,96 @@ func singleGateAPICases() []apiCase {
 		{name: "scalar-type", spec: &Spec{Query: "Query", Types: withBuiltins(
 			TypeSpec{Kind: "scalar", Name: "Token", Req: a},
 			TypeSpec{Kind: "object", Name: "Query", Fields: []FieldSpec{{Name: "ok", Type: "Boolean"}, {Name: "echo", Type: "Token", Req: a, Args: []ArgSpec{{"t", "Token"}}}}})},
-			queries: []query{fixedQ("query Q($t: Token) { echo(t: $t) }", map[string]interface{}{"t": "x"}), fixedQ(`{ echo(t: "y") }`, nil)}},
+			queries: []query{fixedQ("query Q($t: Token) { echo(t: $t) }", map[string]interface{}{"t": "x"}), fixedQ(`{ echo(t: "y") }`, nil),
+				{Kind: "probe", Label: "type:Token", Text: typeProbe("Token")}}},
 		{name: "connection-edge-field", spec: &Spec{Query: "Query", Types: append(withBuiltins(
 			TypeSpec{Kind: "object", Name: "Item", Fields: []FieldSpec{{Name: "n", Type: "Int"}}},
 			TypeSpec{Kind: "object", Name: "Query", Fields: []FieldSpec{{Name: "ok", Type: "Boolean"},
 				{Name: "items", Conn: &ConnSpec{Prefix: "Item", Node: "Item", EdgeFields: []FieldSpec{{Name: "score", Type: "Int", Req: a}}}}}}), pageInfoSpec())},
 			queries: []query{fixedQ("{ items(first: 3) { edges { score node { n } } } }", nil), {Kind: "probe", Label: "type:ItemEdge", Text: typeProbe("ItemEdge")}}},
+	}
+	return append(out, moreSingleGateAPICases()...)
+}
+
+// moreSingleGateAPICases: the gated element kinds at further positions.
+func moreSingleGateAPICases() []apiCase {
+	a := []string{"a"}
+	return []apiCase{
+		// a gated interface field next to every kind of implementer: the object's own field gated too,
+		// the object's field ungated, and a gated object whose field is ungated
+		{name: "interface-field-implementers", withWS: true, spec: &Spec{Query: "Query", Types: withBuiltins(
+			TypeSpec{Kind: "interface", Name: "Thing", Fields: []FieldSpec{{Name: "id", Type: "ID"}, {Name: "createdAt", Type: "String", Req: a}}},
+			TypeSpec{Kind: "object", Name: "Widget", Ifaces: []string{"Thing"}, Fields: []FieldSpec{{Name: "id", Type: "ID"}, {Name: "createdAt", Type: "String", Req: a}}},
+			TypeSpec{Kind: "object", Name: "Open", Ifaces: []string{"Thing"}, Fields: []FieldSpec{{Name: "id", Type: "ID"}, {Name: "createdAt", Type: "String"}}},
+			TypeSpec{Kind: "object", Name: "Gadget", Req: a, Ifaces: []string{"Thing"}, Fields: []FieldSpec{{Name: "id", Type: "ID"}, {Name: "createdAt", Type: "String"}}},
+			TypeSpec{Kind: "object", Name: "Query", Fields: []FieldSpec{{Name: "ok", Type: "Boolean"}, {Name: "thing", Type: "Thing"}, {Name: "things", Type: "[Thing!]"}, {Name: "widget", Type: "Widget"}}})},
+			queries: []query{
+				fixedQ("{ things { __typename id createdAt } }", nil),
+				fixedQ("{ things { id ... on Widget { createdAt } ... on Open { createdAt } ... on Gadget { createdAt } } }", nil),
+				fixedQ("{ things { ... on Open { createdAt } } widget { createdAt } }", nil),
+				fixedQ("{ things { ...T } } fragment T on Thing { createdAt ... on Gadget { id } }", nil),
+				{Kind: "probe", Label: "type:Thing", Text: typeProbe("Thing")}, {Kind: "probe", Label: "type:Widget", Text: typeProbe("Widget")},
+				{Kind: "probe", Label: "type:Gadget", Text: typeProbe("Gadget")}, {Kind: "probe", Label: "nav:Thing", Text: navProbe("Thing")}}},
+		// a gated union with an ungated and a gated member, behind a gated field; the ungated member is also reachable directly
+		{name: "union-members", withWS: true, spec: &Spec{Query: "Query", Types: withBuiltins(
+			TypeSpec{Kind: "object", Name: "Widget", Fields: []FieldSpec{{Name: "id", Type: "ID"}}},
+			TypeSpec{Kind: "object", Name: "Extra", Req: a, Fields: []FieldSpec{{Name: "id", Type: "ID"}, {Name: "x", Type: "Int"}}},
+			TypeSpec{Kind: "union", Name: "Any", Req: a, Members: []string{"Widget", "Extra"}},
+			TypeSpec{Kind: "object", Name: "Query", Fields: []FieldSpec{{Name: "w", Type: "Widget"}, {Name: "any", Type: "[Any]", Req: a}, {Name: "one", Type: "Any!", Req: a}}})},
+			queries: []query{
+				fixedQ("{ any { __typename ... on Extra { x } ... on Widget { id } } }", nil),
+				fixedQ("{ one { __typename ... on Extra { id x } } w { ... on Any { __typename } } }", nil),
+				fixedQ("{ w { id ...A } } fragment A on Any { ... on Widget { id } }", nil),
+				{Kind: "probe", Label: "type:Any", Text: typeProbe("Any")}, {Kind: "probe", Label: "type:Extra", Text: typeProbe("Extra")},
+				{Kind: "probe", Label: "nav:Any", Text: navProbe("Any")}}},
+		// gated input types whose fields are reached through defaults: an argument default of input-object
+		// type, an input field default of input-object / list-of-enum / enum type, variables with and without
+		// defaults, literals that leave the defaulted fields out
+		{name: "input-defaults", withWS: true, spec: &Spec{Query: "Query", Types: withBuiltins(
+			TypeSpec{Kind: "enum", Name: "Mode", Req: a, Values: []string{"X", "Y"}},
+			TypeSpec{Kind: "input", Name: "Inner", Req: a, Inputs: []ArgSpec{{"mode", "Mode"}, {"n", "Int"}}, InputDefaults: []string{"mode", "n"}},
+			TypeSpec{Kind: "input", Name: "Filter", Req: a, Inputs: []ArgSpec{{"inner", "Inner"}, {"modes", "[Mode!]"}, {"s", "String"}}, InputDefaults: []string{"inner", "modes"}},
+			TypeSpec{Kind: "object", Name: "Query", Fields: []FieldSpec{{Name: "ok", Type: "Boolean"},
+				{Name: "search", Type: "Int", Req: a, Args: []ArgSpec{{"filter", "Filter"}, {"m", "Mode"}, {"ms", "[Mode]"}}, ArgDefaults: []string{"filter", "m", "ms"}},
+				{Name: "plain", Type: "Int", Args: []ArgSpec{{"n", "Int"}}, ArgDefaults: []string{"n"}}}})},
+			queries: []query{
+				fixedQ("{ search plain }", nil),
+				fixedQ("{ search(filter: {}) }", nil),
+				fixedQ("{ search(filter: {inner: {}}) }", nil),
+				fixedQ("{ search(filter: {inner: {n: 1}, s: \"t\"}, m: Y) }", nil),
+				fixedQ("query Q($f: Filter = {}) { search(filter: $f) }", nil),
+				fixedQ("query Q($f: Filter = {inner: {mode: Y}}) { search(filter: $f) }", nil),
+				fixedQ("query Q($f: Filter) { search(filter: $f) }", map[string]interface{}{"f": map[string]interface{}{"inner": map[string]interface{}{}}}),
+				fixedQ("query Q($f: Filter) { search(filter: $f) }", nil),
+				fixedQ("query Q($i: Inner = {}) { search(filter: {inner: $i}) }", nil),
+				fixedQ("query Q($m: Mode = X, $ms: [Mode] = [Y]) { search(m: $m, ms: $ms) }", nil),
+				fixedQ("query Q($ms: [Mode!]) { search(filter: {modes: $ms}) }", map[string]interface{}{"ms": []interface{}{"X", "Y"}}),
+				{Kind: "probe", Label: "type:Filter", Text: typeProbe("Filter")}, {Kind: "probe", Label: "type:Inner", Text: typeProbe("Inner")},
+				{Kind: "probe", Label: "type:Mode", Text: typeProbe("Mode")}, {Kind: "probe", Label: "type:Query", Text: typeProbe("Query")}}},
+		// custom directives (with field-collection filters) whose arguments have a gated type: defaulted,
+		// required, list-typed; applied with literals, variables, and with the arguments left out
+		{name: "directive-argument", withWS: true, spec: &Spec{Query: "Query",
+			Directives: []DirSpec{
+				{Name: "paint", Args: []ArgSpec{{"mode", "Mode"}, {"n", "Int"}}, Defaults: []string{"mode", "n"}, Filter: true},
+				{Name: "need", Args: []ArgSpec{{"mode", "Mode!"}, {"s", "String"}}, Filter: true},
+				{Name: "many", Args: []ArgSpec{{"modes", "[Mode!]"}, {"f", "Opts"}}, Defaults: []string{"modes", "f"}, Filter: true}},
+			Types: withBuiltins(
+				TypeSpec{Kind: "enum", Name: "Mode", Req: a, Values: []string{"X", "Y"}},
+				TypeSpec{Kind: "input", Name: "Opts", Req: a, Inputs: []ArgSpec{{"mode", "Mode"}, {"k", "Int"}}, InputDefaults: []string{"mode"}},
+				TypeSpec{Kind: "object", Name: "Query", Fields: []FieldSpec{{Name: "ok", Type: "Boolean"}, {Name: "n", Type: "Int"}, {Name: "g", Type: "Int", Req: a}}})},
+			queries: []query{
+				fixedQ("{ ok @paint n @many }", nil),
+				fixedQ("{ ok @paint(mode: Y) n @paint(n: 1) }", nil),
+				fixedQ("{ ok @need(mode: X) n @need(s: \"t\") }", nil),
+				fixedQ("{ ok @need(s: \"t\") }", nil),
+				fixedQ("{ ok @many(modes: [X, Y]) n @many(f: {}) g @many(f: {mode: Y, k: 1}) }", nil),
+				fixedQ("query Q($m: Mode = Y) { ok @paint(mode: $m) }", nil),
+				fixedQ("query Q($m: Mode!) { ok @need(mode: $m) }", map[string]interface{}{"m": "X"}),
+				fixedQ("query Q($f: Opts = {}) { ok @many(f: $f) }", nil),
+				fixedQ("query Q($n: Int) { ok @paint(n: $n) n @skip(if: false) }", map[string]interface{}{"n": float64(3)}),
+				fixedQ("{ ... @paint { ok } ...F @need(mode: Y) } fragment F on Query { n }", nil),
+				{Kind: "probe", Label: "directives", Text: `{ __schema { directives { name locations args { name defaultValue type { ...R } } } } } ` + typeRefFrag},
+				{Kind: "probe", Label: "type:Mode", Text: typeProbe("Mode")}, {Kind: "probe", Label: "type:Opts", Text: typeProbe("Opts")}}},
 	}
 }
 
